@@ -151,6 +151,16 @@ func Replay(c *core.Ctx, lines []string) {
 	}
 }
 
+// parseErrMsg: the message of the error Parse returns on s ("" when there is none)
+func parseErrMsg(s string) (msg string) {
+	core.Safe(func() {
+		if _, err := newick.NewParser(strings.NewReader(s)).Parse(); err != nil {
+			msg = err.Error()
+		}
+	})
+	return
+}
+
 func parseText(s string) (t *tree.Tree, outcome string) {
 	var err error
 	if p, msg := core.Safe(func() { t, err = newick.NewParser(strings.NewReader(s)).Parse() }); p {
@@ -473,6 +483,11 @@ func shrink(n *core.N) *core.N {
 
 func doParse(c *core.Ctx, s string) {
 	t, outcome := parseText(s)
+	if outcome == "err" {
+		// fidelity only (decides nothing): the text of the error, to compare the REASON the model gives with the code's
+		c.Emit("C01.parse", core.Escape(s), outcome, "", core.Escape(parseErrMsg(s)))
+		return
+	}
 	if outcome != "ok" {
 		c.Emit("C01.parse", core.Escape(s), outcome, "")
 		return
@@ -843,15 +858,22 @@ func genValue(g *core.G, mode int) float64 {
 var tipNameFmt = []string{"t%d", "t%d", "t%d", "%d", "1e%d", "a b%d", "x/y%d", "'q%d'", "é%d", "日本%d", "0.5/0.%d", "inf%d", "a\x00b%d",
 	"T_%d|x=1", "a\tb%d", "a b%d", "{%d}", "-%d", "0x%dp1", "\"%d\"", "%d_0", "a  b%d", "\U0001F600%d", "+.%d",
 	// printf- and escape-sensitive characters are ordinary name characters
-	"p%%%d", "%%d%d", "%%s_%d", "a\\b%d", "a%%%%b%d", "%%!%d", "$%d", "`%d`", "\\n%d", "%%v%d", "#%d", "&%d", "<%d>", "~%d^", "*%d?", "a=b%d", "@%d", "95%%_%d", "%%%d%%"}
+	"p%%%d", "%%d%d", "%%s_%d", "a\\b%d", "a%%%%b%d", "%%!%d", "$%d", "`%d`", "\\n%d", "%%v%d", "#%d", "&%d", "<%d>", "~%d^", "*%d?", "a=b%d", "@%d", "95%%_%d", "%%%d%%",
+	// round 7: blanks of unicode.IsSpace that are NOT blanks of the lexer, inside a name (TrimSpace must not see them, the lexer must keep them)
+	"a\u00a0b%d", "a\u2028b%d", "a\vb%d", "a\fb%d", "x\u0085y%d", "1 %d", "1/2/%d"}
 
-var innerNames = []string{"N%d", "N%d", "x/y%d", "1/x%d", "in %d", "é%d", "n%d ", "a%d/1", "1e%dz", "0x%d", "-", "_%d", "p/q/r%d", "/%d", "%d/", "%%%d", "n\\%d", "N%%d_%d", "%%s%d", "100%%_%d", "\\\\%d"}
+var innerNames = []string{"N%d", "N%d", "x/y%d", "1/x%d", "in %d", "é%d", "n%d ", "a%d/1", "1e%dz", "0x%d", "-", "_%d", "p/q/r%d", "/%d", "%d/", "%%%d", "n\\%d", "N%%d_%d", "%%s%d", "100%%_%d", "\\\\%d",
+	// round 7: labels that only just fail to be numeric: a number followed by a blank (the lexer keeps the blank, ParseFloat refuses it),
+	// three '/'-separated numbers (len(vals) == 2 fails), a number and a blank-terminated number, a trailing no-break space
+	"%d ", "0.5 ", "1e%d\t", "1/2/%d", "0.5/0.25/%d", "1/%d ", "n%d\u00a0", "1//%d"}
 
 var comments = []string{"&x=1", "c", "a b", "&&NHX:S=x", "k;(),:[", "", " ", "[[", "1.5", "é;", "a\x00", "(", ";",
 	// runs of blanks: a WS token of the comment scanner (at the start, or right after a metacharacter) must come back whole
 	"  ", "   x", "\t\t", " \t ", "    ", "a(  b", "x,   y", ":  1", ")\t\tz", "[  [", "(\t \t)", "\n\n x", "k:\r\n v", "a  b", " ( , ) ", ";  ;",
 	// printf- and escape-sensitive contents: a writer or reader that formats / unescapes must not touch them
 	"&bootstrap=95%", "%", "%d", "%s", "%%", "100%!", "\\", "\\n", "%v %x", "{%}", "\"q\"", "'", "$1", "`", "\\t", "%\x00", "%!(EXTRA)", "a%20b", "&#38;", "\\\\"}
+
+var bareNames = []string{"x/y%d", "1/x%d", "a%d/1", "x%d/2", "/%d", "%d/", "1//%d", "1/2/%d", "1/%d "}
 
 func genComment(g *core.G) string { return comments[g.Intn(len(comments))] }
 
@@ -880,11 +902,30 @@ func genTree(g *core.G, quick, big bool, i int) (*core.N, bool) {
 	} else if g.Chance(0.15) {
 		mode = 2
 	}
+	// round 7: "bare" trees — no length, no support, no comment, inner names of the x/y kind: nothing after such a label
+	// calls ParseFloat or consumeComment again, so the error its failed ParseFloat left in parseIter's named result is
+	// only cleared by the Pop of the next ',' / ')' (model: `stale`)
+	bare := !simple && !big && g.Chance(0.05)
 	cnt := 0
 	var rec func(x *core.N, root bool)
 	rec = func(x *core.N, root bool) {
 		x.Name, x.Comments = "", nil
 		inner := len(x.Kids) > 0
+		if bare {
+			cnt++
+			if !root {
+				x.E = core.NewE()
+			}
+			if !inner {
+				x.Name = fmt.Sprintf("t%d", cnt)
+			} else if g.Chance(0.6) {
+				x.Name = fmt.Sprintf(bareNames[g.Intn(len(bareNames))], cnt)
+			}
+			for _, k := range x.Kids {
+				rec(k, false)
+			}
+			return
+		}
 		if !root {
 			x.E = core.NewE()
 			if g.Chance(0.8) {
